@@ -11,7 +11,11 @@ ORDERS4 = [list(p) for p in itertools.permutations(['a', 'b', 'c', 'd'])]
 def run(chk):
     q = chk.quick
     chk.rule = (
-        'token lists generated from the documented grammar: EXHAUSTIVELY all '
+        'S1: MC_Expr -- TLC builds syntax trees by actions, prints them with '
+        'minimal parentheses per the documented precedence/associativity and '
+        'checks that the precedence-climbing parser reads every spelling back '
+        'to the same tree (a printer with two rows exchanged is refuted). '
+        'S3: token lists generated from the documented grammar: EXHAUSTIVELY all '
         '"a op1 b op2 c" over the 13 binary spellings (13^2), with prefix '
         '~/! patterns and with the two parenthesisations; sampled (quick) / all '
         '(thorough) 13^3 four-operand chains; binders \\A \\E \\S in every '
@@ -27,6 +31,13 @@ def run(chk):
         'functions of 3 (4: sampled/thorough) variables. distinct_nontrivial = '
         'distinct token lists with >= 2 different operator tokens')
     chk.mc('MC_BoolFun', 'MC_BoolFun.cfg')
+    chk.mc('MC_Expr', 'MC_Expr.cfg' if q else 'MC_Expr_deep.cfg', timeout=3000)      # parse(print(tree)) = tree
+    chk.mc('MC_Expr', 'MC_Expr_all.cfg')                                              # ... for every spelling
+    from harness import tlcrun as _t
+    r = _t.model_check('MC_Expr', 'MC_Expr_neg.cfg', 'neg', timeout=600)
+    if 'is violated' not in r['out']:
+        raise _t.MachineryError('negative configuration MC_Expr_neg was not refuted')
+    chk.extra['negative_configurations_refuted'] = ['MC_Expr_neg.cfg (two precedence rows exchanged in the printer)']
     tasks = []
     tid = 5500000
     variants = [0, 1, 2, 4, 7, 8 + 1, 16 + 2, 8 + 16 + 7]
